@@ -154,7 +154,11 @@ def check_property(prop, tier, seed):
              'replay_test': drv, 'replay_result': {k: v for k, v in info.items() if k != 'tail'}}
         path = _write_replay(prop, o, d, u)
         violation_lines.append(f'VIOLATION property={prop} replay={path}')
+    reported = set()
     for o, d, u in c['violations']:
+        if o.id in reported:
+            continue      # one obligation may fail at several return sites: one report, one replay
+        reported.add(o.id)
         if hasattr(u, 'replay_violation'):
             u.replay_violation(o, d)
         else:
